@@ -3,15 +3,21 @@
    (see Ui.v); items, containers and everything package pub provides are universally quantified
    oracles.  [ui_inv] (UiFacts.v): pages hold genuine two-sided feeds, history only names existing
    pages and has a valid cursor, a page exists whenever the mode is not "loading", and every page
-   has at most one loader per direction, exactly as its flags say.  [reachable]: any interleaving
-   of key presses, resizes and completions of ANY pending task, from the initial state.
+   has at most one loader per direction, exactly as its flags say.  [reachable_from s0]: any interleaving
+   of key presses, resizes and completions of ANY pending task, from s0; the program starts in
+   start_open / start_feed, the states State.Subcommand("open"|"feed", arg) puts a fresh State in
+   (subcommand_start).  [reachable] - the same closure from the bare initial loading screen - is
+   kept with reachable_only_resizes, which shows that by itself it only reaches resized loading
+   screens (a vacuity of the first formulation found while proving the frame theorems).
+   [frames_inv]: every frame emitted so far was computed from a state satisfying view_inv.
    Only property theorems here. *)
 
 From Servitor Require Import Base Unicode Ansi Style History Feed Ui.
 From Servitor.Facts Require Import UiFacts.
 Local Open Scope Z_scope.
+From Servitor.Facts Require Import HtmlFacts FrameFacts.
 
-(* the invariant holds in EVERY state reachable by keys (all 256 byte values), resizes and background completions in any order *)
+(* the invariant holds in EVERY state reachable from the bare initial screen (see reachable_only_resizes; the meaningful statement is reachable_from_inv below) *)
 Theorem reachable_inv :
   forall (I C : Type) (preload : Z) (parents : I -> nat -> list I * option I)
   (children : I -> option C) (harvest : C -> nat -> nat -> list I * option C * nat)
@@ -378,3 +384,88 @@ Theorem space_keeps_pages :
   Some p0.
 Proof. exact space_keeps_pages_fact. Qed.
 Print Assumptions space_keeps_pages.
+
+(* the states the program starts in: Subcommand(open, arg) and Subcommand(feed, arg) on the fresh State *)
+Theorem subcommand_start :
+  forall (I C : Type) (open_user : text -> opened I C) (feed_named : text -> option C)
+  (msg_unknown_feed msg_bad_command : text -> text) (w h : Z) (arg : text),
+  run_command I C open_user feed_named msg_unknown_feed msg_bad_command
+  (ui_init I C w h) s_open arg = start_open I C open_user w h arg /\
+  (forall c : C,
+  feed_named arg = Some c ->
+  run_command I C open_user feed_named msg_unknown_feed msg_bad_command
+  (ui_init I C w h) s_feed arg = start_feed I C w h c).
+Proof. exact subcommand_start_fact. Qed.
+Print Assumptions subcommand_start.
+
+(* both satisfy the invariants *)
+Theorem start_open_ok :
+  forall (I C : Type) (open_user : text -> opened I C) (w h : Z) (input : text),
+  ui_inv I C (start_open I C open_user w h input) /\
+  frames_inv I C (start_open I C open_user w h input).
+Proof. exact start_open_ok_fact. Qed.
+Print Assumptions start_open_ok.
+
+Theorem start_feed_ok :
+  forall (I C : Type) (w h : Z) (c : C),
+  ui_inv I C (start_feed I C w h c) /\ frames_inv I C (start_feed I C w h c).
+Proof. exact start_feed_ok_fact. Qed.
+Print Assumptions start_feed_ok.
+
+(* the invariants hold in EVERY state reachable from such a start by keys (all 256 byte values), resizes and completions of ANY pending background task, in any order *)
+Theorem reachable_from_inv :
+  forall (I C : Type) (preload : Z) (parents : I -> nat -> list I * option I)
+  (children : I -> option C) (harvest : C -> nat -> nat -> list I * option C * nat)
+  (select_link : I -> Z -> option text) (creators recipients : I -> option (list I))
+  (actor_of : I -> option I) (media pfp banner : I -> option text)
+  (open_link open_user : text -> opened I C) (feed_named : text -> option C)
+  (hook_fails : text -> option text) (msg_unknown_feed msg_bad_command : text -> text)
+  (s0 s : ui I C),
+  ui_inv I C s0 ->
+  frames_inv I C s0 ->
+  reachable_from I C preload parents children harvest select_link creators recipients actor_of
+  media pfp banner open_link open_user feed_named hook_fails msg_unknown_feed
+  msg_bad_command s0 s -> ui_inv I C s /\ frames_inv I C s.
+Proof. exact reachable_from_inv_fact. Qed.
+Print Assumptions reachable_from_inv.
+
+(* and EVERY frame emitted along such a history was computed without a panic (no lookup outside the feed, no Current on an empty history) and has exactly as many lines as the terminal had rows *)
+Theorem every_frame_from :
+  forall (I C : Type) (preload : Z) (parents : I -> nat -> list I * option I)
+  (children : I -> option C) (harvest : C -> nat -> nat -> list I * option C * nat)
+  (select_link : I -> Z -> option text) (creators recipients : I -> option (list I))
+  (actor_of : I -> option I) (media pfp banner : I -> option text)
+  (open_link open_user : text -> opened I C) (feed_named : text -> option C)
+  (hook_fails : text -> option text) (msg_unknown_feed msg_bad_command : text -> text)
+  (col : colors) (full_text preview_text : I -> Z -> text) (s0 s : ui I C)
+  (sh : shown I C),
+  ui_inv I C s0 ->
+  frames_inv I C s0 ->
+  reachable_from I C preload parents children harvest select_link creators recipients actor_of
+  media pfp banner open_link open_user feed_named hook_fails msg_unknown_feed
+  msg_bad_command s0 s ->
+  In sh (u_frames I C s) ->
+  StyleFacts.colors_ok col ->
+  0 <= u_width I C (ui_of_shown I C sh) ->
+  exists t : text,
+  view I C preload col full_text preview_text (ui_of_shown I C sh) = Ok t /\
+  (2 <= u_height I C (ui_of_shown I C sh) -> height t = u_height I C (ui_of_shown I C sh)).
+Proof. exact every_frame_from_fact. Qed.
+Print Assumptions every_frame_from.
+
+(* (the closure from the bare initial screen alone is degenerate: only resizes change anything) *)
+Theorem reachable_only_resizes :
+  forall (I C : Type) (preload : Z) (parents : I -> nat -> list I * option I)
+  (children : I -> option C) (harvest : C -> nat -> nat -> list I * option C * nat)
+  (select_link : I -> Z -> option text) (creators recipients : I -> option (list I))
+  (actor_of : I -> option I) (media pfp banner : I -> option text)
+  (open_link open_user : text -> opened I C) (feed_named : text -> option C)
+  (hook_fails : text -> option text) (msg_unknown_feed msg_bad_command : text -> text)
+  (w h : Z) (s : ui I C),
+  reachable I C preload parents children harvest select_link creators recipients actor_of
+  media pfp banner open_link open_user feed_named hook_fails msg_unknown_feed
+  msg_bad_command w h s ->
+  u_mode I C s = MLoading /\
+  u_tasks I C s = [] /\ u_pages I C s = [] /\ u_hist I C s = h_init /\ u_buffer I C s = [].
+Proof. exact reachable_only_resizes_fact. Qed.
+Print Assumptions reachable_only_resizes.
